@@ -15,6 +15,12 @@ A descriptor is pure JSON -- the *arguments* of one client-level call sequence
     via='genmodel'  exec(tatsu.to_python_model(G, **c)) ; obj = tatsu.compile(G, semantics=<X>ModelBuilderSemantics())
                     ; obj.parse(text, **p)
 
+Option values that denote caller-owned mutable objects (constructors / typedefs / keywords lists, 'config' =
+ParserConfig(**...), 'builderconfig' = BuilderConfig(**...), semantics={'mbs': {...}} = ModelBuilderSemantics(**...))
+are made anew for the call, or -- when the step carries an 'argslot' -- taken from the variables the caller keeps
+(Env.shared): every step naming the same (option, value, slot) passes the SAME object.  All of them are snapshotted
+(canon_arg) before and after every TatSu call that receives them.
+
 Nothing of TatSu is reimplemented here; the oracle for a descriptor inside a history is the same
 descriptor evaluated alone by this same evaluator in a fresh interpreter.
 """
@@ -75,6 +81,26 @@ ident = /[a-z]+/ ;
 num = /\d+/ ;
 nl = /\n/ ;
 ''',
+    # constants and alerts: over names the rule has bound ({who} after who:), over names it has NOT bound at that
+    # point (they stay the literal text), bare names and Python literals.  'const' and 'const2' (and the two options
+    # of const2's item) use the SAME name spellings -- who, n -- bound in one place and unbound in the other
+    'const': r'''
+start = {greet | tag | lit | note}+ $ ;
+greet = 'hi' who:word msg:`hello {who}` ;
+tag = 'tag' n:num t:`{who}` u:`who` ;
+lit = 'lit' n:num v:`42` w:`n` x:`{n}{n}` ;
+note = 'note' what:word ^`noted {what}` ^^`by {who} n {n}` ;
+word = /[a-z]+/ ;
+num = /\d+/ ;
+''',
+    'const2': r'''
+@@grammar :: Notes
+start::Doc = items:{item}+ $ ;
+item::Entry = 'set' n:word v:`{n}` o:`{who}` ^^`set {n}` ^`for {who}`
+            | 'who' who:num w:`who` k:`{n}` ^`who {who}` ^^^`n {n}` ;
+word = /[a-z]+/ ;
+num = /\d+/ ;
+''',
 }
 
 # texts: (good ones, failing ones) per family
@@ -85,6 +111,8 @@ TEXTS = {
     'kw': (['if a then b', 'foo bar', 'if x then y z'], ['if', 'if then then b', 'a if']),
     'lrec': (['1', '1 + 2', '1 + 2 - 3'], ['+', '1 +', '1 2']),
     'ws': (['let a = 1\n', 'LET b = 2 # c\nlet c = 3\n', 'let\tz = 9\n'], ['let a 1\n', 'let = 1\n', 'let a = 1']),
+    'const': (['hi bob', 'tag 7', 'lit 3', 'note x', 'hi al tag 8', 'tag 9 hi eve note y'], ['hi 7', 'tag', 'lit x']),
+    'const2': (['set k', 'who 12', 'set bob who 5', 'who 3 set n'], ['set', 'who x', 'set 1']),
 }
 
 
@@ -98,6 +126,9 @@ class SemUpper:
         return str(ast).upper()
 
     def ident(self, ast):
+        return str(ast).upper()
+
+    def word(self, ast):
         return str(ast).upper()
 
 
@@ -156,7 +187,15 @@ def _bases():
 
     BaseA.__module__ = BaseB.__module__ = 'vtc10'
     BaseA.__qualname__, BaseB.__qualname__ = 'BaseA', 'BaseB'
-    return {'BaseA': BaseA, 'BaseB': BaseB}
+    out = {'BaseA': BaseA, 'BaseB': BaseB}
+    # client node classes named like the rule types of the 'typed' grammars (what a typedefs container or a
+    # constructors list holds), one set per "module": the same type name resolves to another class
+    for mod, names in (('vtc10', {'Top': BaseB, 'Item': BaseA, 'Num': BaseA, 'Name': BaseB, 'Other': BaseA, 'Extra': BaseB}),
+                       ('vtc10alt', {'Item': BaseB, 'Num': BaseB})):
+        for n, base in names.items():
+            t = type(n, (base,), {'__module__': mod, '__qualname__': n})
+            out[n if mod == 'vtc10' else f'alt.{n}'] = t
+    return out
 
 
 def _ctor_item_v1(ast):
@@ -203,6 +242,10 @@ class Env:
         self.counters = {}
         self.state_events = []
         self.nmod = 0
+        self.args = {}          # (option, spec, slot) -> caller-owned mutable argument object kept between calls
+        self.arg_keys = {}      # id(object held in self.args) -> its key (as a string)
+        self.step = 0           # index of the step being evaluated
+        self.step_keys = {}     # step index -> keys of the kept argument objects the step was given
 
     def count(self, k, n=1):
         self.counters[k] = self.counters.get(k, 0) + n
@@ -241,11 +284,35 @@ class Env:
             self.bases = _bases()
         return self.bases[name]
 
+    def shared(self, option, spec, slot, factory):
+        """a caller-owned mutable argument (a list, a dict/module of type definitions, a BuilderConfig, a
+        ParserConfig, a ModelBuilderSemantics).  slot None: a new object for this call alone.  Otherwise the caller
+        keeps the object in a variable: every call of the history that names the same (option, value, slot) is given
+        the SAME object -- "the same argument object as in the earlier call"."""
+        if slot is None:
+            self.count('argument_objects_created:' + option)
+            return factory()
+        key = (option, json.dumps(spec, sort_keys=True), slot)
+        skey = f'{option}={key[1]}@{slot}'
+        if key in self.args:
+            self.count('kept_argument_object_passed_again')
+            self.count('kept_argument_object_passed_again:' + option)
+        else:
+            self.args[key] = factory()
+            self.arg_keys[id(self.args[key])] = skey
+            self.count('argument_objects_created:' + option)
+        self.step_keys.setdefault(self.step, [])
+        if skey not in self.step_keys[self.step]:
+            self.step_keys[self.step].append(skey)
+        return self.args[key]
+
     def drop(self):
         """forget every client object the harness holds, collect, and learn which ids are free"""
         self.sems.clear()
         self.objects.clear()
         self.classes.clear()
+        self.args.clear()
+        self.arg_keys.clear()
         gc.collect()
         alive = []
         for t in self.tracked:
@@ -355,6 +422,47 @@ def canon_config(cfg, idmap=True):
     return out
 
 
+def canon_arg(v, depth=0):
+    """deep canonical form of a caller-owned argument object, for "the call must not change what it was given":
+    containers and configuration objects by content; classes, functions and TatSu's own objects by identity (their
+    inside is not the caller's); client objects (semantics) by their public attributes.  Compared only within one
+    process (before / after one call), so id() may appear."""
+    if depth > 12:
+        return '<deep>'
+    if v is None or isinstance(v, (bool, int, str)):
+        return v
+    if isinstance(v, float):
+        return repr(v)
+    if isinstance(v, type):
+        return f'type:{clsname(v)}#{id(v)}'
+    if isinstance(v, re.Pattern):
+        return 're:' + v.pattern
+    if isinstance(v, dict):
+        return {'@' + type(v).__name__: [[canon_arg(k, depth + 1), canon_arg(x, depth + 1)] for k, x in v.items()]}
+    if isinstance(v, (list, tuple)):
+        return {'@' + type(v).__name__: [canon_arg(x, depth + 1) for x in v]}
+    if isinstance(v, (set, frozenset)):
+        return {'@' + type(v).__name__: sorted((canon_arg(x, depth + 1) for x in v), key=repr)}
+    if isinstance(v, types.ModuleType):
+        return {'@module': v.__name__,
+                'vars': [[k, canon_arg(x, depth + 1)] for k, x in vars(v).items() if not k.startswith('__')]}
+    if isinstance(v, (types.FunctionType, types.BuiltinFunctionType, types.MethodType)):
+        return f'callable:{getattr(v, "__qualname__", "?")}#{id(v)}'
+    t = type(v)
+    if hasattr(v, 'asdict') and hasattr(t, '__dataclass_fields__'):      # ParserConfig, BuilderConfig
+        try:
+            return {'@cfg': clsname(t), 'fields': {k: canon_arg(x, depth + 1) for k, x in v.asdict().items()}}
+        except Exception as e:  # noqa: BLE001
+            return {'@cfg': clsname(t), '@asdict-failed': type(e).__name__}
+    if (getattr(t, '__module__', '') or '').split('.')[0] == 'tatsu':
+        return f'tatsu-object:{clsname(t)}#{id(v)}'
+    try:
+        pub = {k: canon_arg(x, depth + 1) for k, x in vars(v).items() if not k.startswith('_')}
+    except TypeError:
+        pub = scrub(repr(v))[:120]
+    return {'@obj': clsname(t), 'id': id(v), 'vars': pub}
+
+
 def digest(s):
     return hashlib.blake2b(s.encode(), digest_size=8).hexdigest()
 
@@ -367,28 +475,60 @@ def model_digest(model):
 # option decoding:  JSON value -> real argument object
 # ----------------------------------------------------------------------------------------------
 
-def decode_opts(opts, env, semslot, passed_configs):
+def _container(spec, env):
+    """one typedefs container: a list of class names -> a dict; {'module': [names]} -> a module object"""
+    if isinstance(spec, dict):
+        mod = types.ModuleType('vtc10alt' if any(n.startswith('alt.') for n in spec['module']) else 'vtc10')
+        for n in spec['module']:
+            setattr(mod, n.split('.')[-1], env.base(n))
+        return mod
+    return {n.split('.')[-1]: env.base(n) for n in spec}
+
+
+def _ctor_value(x, env):
+    return env.ctor(x) if x in ('item1', 'item2') else env.base(x)
+
+
+def decode_opts(opts, env, semslot, passed, argslot=None, prefix=''):
+    """JSON option values -> the real argument objects.  Every caller-owned object handed to TatSu (mutable
+    containers, configuration objects, semantics objects) is appended to `passed` as (label, object): the STATE
+    monitor snapshots them around the call.  argslot: see Env.shared."""
     out = {}
     for k, v in (opts or {}).items():
+        label = prefix + k
         if k == 'semantics':
-            out[k] = None if v is None else env.sem(v, semslot)
+            if isinstance(v, dict):
+                # a ModelBuilderSemantics the caller built from its own lists: {'mbs': {constructors/typedefs/...}}
+                from tatsu.semantics import ModelBuilderSemantics
+                inner = decode_opts(v['mbs'], env, semslot, passed, argslot, label + '.')
+                out[k] = env.shared(k, v, argslot, lambda inner=inner: ModelBuilderSemantics(**inner))
+            else:
+                out[k] = None if v is None else env.sem(v, semslot)
         elif k == 'basetype':
             out[k] = env.base(v)
+            continue
         elif k == 'constructors':
-            out[k] = [env.ctor(x) for x in v]
+            out[k] = env.shared(k, v, argslot, lambda v=v: [_ctor_value(x, env) for x in v])
         elif k == 'typedefs':
-            out[k] = [dict((n, env.base(n)) for n in v)]
+            if all(isinstance(x, str) for x in v):
+                out[k] = env.shared(k, v, argslot, lambda v=v: [_container(v, env)])
+            else:
+                out[k] = env.shared(k, v, argslot, lambda v=v: [_container(x, env) for x in v])
+        elif k == 'keywords':
+            out[k] = env.shared(k, v, argslot, lambda v=v: list(v))
         elif k == 'config':
             from tatsu.config import ParserConfig
-            inner = decode_opts(v, env, semslot, passed_configs)
-            cfg = ParserConfig(**inner)
-            passed_configs.append(cfg)
-            out[k] = cfg
+            inner = decode_opts(v, env, semslot, passed, argslot, label + '.')
+            out[k] = env.shared(k, v, argslot, lambda inner=inner: ParserConfig(**inner))
         elif k == 'builderconfig':
             from tatsu.objectmodel.builder import BuilderConfig
-            out[k] = BuilderConfig(**decode_opts(v, env, semslot, passed_configs))
+            inner = decode_opts(v, env, semslot, passed, argslot, label + '.')
+            out[k] = env.shared(k, v, argslot, lambda inner=inner: BuilderConfig(**inner))
         else:
             out[k] = v
+            continue
+        if out[k] is not None:
+            passed.append((label, out[k]))
     return out
 
 
@@ -422,7 +562,8 @@ def _find_class(mod, suffix):
 
 
 # ----------------------------------------------------------------------------------------------
-# STATE monitor: a parse must not change the model, its configuration, or a passed ParserConfig
+# STATE monitor: a parse must not change the model, its configuration, or a passed ParserConfig; NO call may change
+# a caller-owned argument object it was given (arg_snapshot / watch_args)
 # ----------------------------------------------------------------------------------------------
 
 def snapshot(obj, passed):
@@ -441,8 +582,44 @@ def snapshot(obj, passed):
     perm = getattr(obj, 'self_config', None) if obj is not None else None
     if perm is not None and hasattr(perm, 'asdict'):
         snap['self_config'] = canon_config(perm)
-    snap['passed'] = [canon_config(c) for c in passed]
+    snap['passed'] = [canon_config(c) for c in _passed_configs(passed)]
+    snap['args'] = arg_snapshot(passed)
     return snap
+
+
+def _is_parser_config(o):
+    try:
+        from tatsu.config import ParserConfig
+    except Exception:  # noqa: BLE001
+        return False
+    return isinstance(o, ParserConfig)
+
+
+def _passed_configs(passed):
+    return [o for _label, o in passed if _is_parser_config(o)]
+
+
+def arg_snapshot(passed):
+    """[(label, id, deep canonical form)] of every caller-owned argument object of the call (a ParserConfig is
+    compared field by field by the 'passed-config' part of the snapshot)"""
+    return [(label, id(o), canon_arg(o)) for label, o in passed if not _is_parser_config(o)]
+
+
+def arg_diff(before, after):
+    """-> (labels of the argument objects (and configuration fields) whose content changed, ids of those objects)"""
+    fields, ids = [], []
+    for (label, i, b), (_l, _i, a) in zip(before, after):
+        if b == a:
+            continue
+        ids.append(i)
+        names = [label]
+        if isinstance(b, dict) and isinstance(a, dict) and '@cfg' in b and 'fields' in b and 'fields' in a:
+            names = [f'{label}.{k}' for k in sorted(set(b['fields']) | set(a['fields']))
+                     if b['fields'].get(k) != a['fields'].get(k)] or [label]
+        for n in names:
+            if n not in fields:
+                fields.append(n)
+    return sorted(fields), ids
 
 
 def state_diff(before, after):
@@ -459,6 +636,9 @@ def state_diff(before, after):
         if b != a:
             fields = sorted(k for k in set(b) | set(a) if b.get(k) != a.get(k))
             out.append(('passed-config', fields))
+    fields, ids = arg_diff(before.get('args', []), after.get('args', []))
+    if fields:
+        out.append(('passed-argument', fields, ids))
     return out
 
 
@@ -466,30 +646,52 @@ def state_diff(before, after):
 # the evaluator
 # ----------------------------------------------------------------------------------------------
 
-def obtain(desc, env, semslot, passed):
+class watch_args:
+    """STATE monitor around a call that is not a parse: the caller-owned argument objects before and after"""
+
+    def __init__(self, env, desc, passed, call):
+        self.env, self.desc, self.passed, self.call = env, desc, passed, call
+
+    def __enter__(self):
+        self.before = arg_snapshot(self.passed)
+        return self
+
+    def __exit__(self, *exc):
+        self.env.count('calls_argument_monitored:' + self.call)
+        self.env.count('argument_objects_snapshotted', len(self.before))
+        fields, ids = arg_diff(self.before, arg_snapshot(self.passed))
+        if fields:
+            _state_event(self.env, self.desc, 'passed-argument', fields, ids, self.call)
+        return False
+
+
+def obtain(desc, env, semslot, passed, argslot=None):
     import tatsu
     G = GRAMMARS[desc['fam']]
     via = desc['via']
-    c = decode_opts(desc.get('c'), env, semslot, passed)
+    c = decode_opts(desc.get('c'), env, semslot, passed, argslot)
     if via == 'compile':
-        return tatsu.compile(G, **c)
+        with watch_args(env, desc, passed, 'compile'):
+            return tatsu.compile(G, **c)
     if via in ('gen', 'genmodel'):
         ck = class_key(desc)
         cls = env.classes.get(ck) if desc.get('_reuse') else None
         if cls is None:
-            if via == 'gen':
-                src = tatsu.to_python_sourcecode(G, **c)
-                cls = _find_class(_exec_module(src, env), 'Parser')
-            else:
-                src = tatsu.to_python_model(G, **c)
-                cls = _find_class(_exec_module(src, env), 'ModelBuilderSemantics')
+            with watch_args(env, desc, passed, 'codegen'):
+                if via == 'gen':
+                    src = tatsu.to_python_sourcecode(G, **c)
+                    cls = _find_class(_exec_module(src, env), 'Parser')
+                else:
+                    src = tatsu.to_python_model(G, **c)
+                    cls = _find_class(_exec_module(src, env), 'ModelBuilderSemantics')
             env.classes[ck] = cls
             env.count('codegen_exec')
         else:
             env.count('generated_class_reused')
         if via == 'gen':
-            k = decode_opts(desc.get('k'), env, semslot, passed)
-            return cls(**k)
+            k = decode_opts(desc.get('k'), env, semslot, passed, argslot)
+            with watch_args(env, desc, passed, 'parser-init'):
+                return cls(**k)
         return tatsu.compile(G, semantics=cls())
     raise KeyError(via)
 
@@ -503,7 +705,7 @@ def info(model):
             'config': cfg}
 
 
-def evaluate(desc, env, reuse=None, phase='full', semslot=None):
+def evaluate(desc, env, reuse=None, phase='full', semslot=None, argslot=None):
     """-> canonical result (None for an obtain-only step).  Every exception class that escapes a
     TatSu call is the observation.  reuse: None (obtain anew) | 'obj' (the object an earlier step
     obtained with the same obtaining arguments) | 'cls' (a new instance of the generated class)"""
@@ -514,21 +716,24 @@ def evaluate(desc, env, reuse=None, phase='full', semslot=None):
     desc['_reuse'] = bool(reuse)
     try:
         if via == 'api':
-            c = decode_opts(desc.get('c'), env, semslot, passed)
+            c = decode_opts(desc.get('c'), env, semslot, passed, argslot)
             before = snapshot(None, passed)
             try:
                 return canon(tatsu.parse(GRAMMARS[desc['fam']], desc['text'], **c))
             finally:
+                env.count('calls_argument_monitored:tatsu.parse')
+                env.count('argument_objects_snapshotted', len(before['args']))
                 _state_check(env, desc, before, snapshot(None, passed))
         if via in ('src', 'modelsrc'):
-            c = decode_opts(desc.get('c'), env, semslot, passed)
+            c = decode_opts(desc.get('c'), env, semslot, passed, argslot)
             f = tatsu.to_python_sourcecode if via == 'src' else tatsu.to_python_model
-            src = f(GRAMMARS[desc['fam']], **c)
+            with watch_args(env, desc, passed, 'codegen'):
+                src = f(GRAMMARS[desc['fam']], **c)
             return {'digest': digest(src), 'classes': re.findall(r'^class (\w+)', src, re.M)}
         ok = obtain_key(desc)
         obj = env.objects.get(ok) if reuse == 'obj' else None
         if obj is None:
-            obj = obtain(desc, env, semslot, passed)
+            obj = obtain(desc, env, semslot, passed, argslot)
             env.objects[ok] = obj
             env.count('objects_obtained')
         else:
@@ -537,12 +742,14 @@ def evaluate(desc, env, reuse=None, phase='full', semslot=None):
             return None
         if desc.get('probe', 'parse') == 'info':
             return info(obj)
-        p = decode_opts(desc.get('p'), env, semslot, passed)
+        p = decode_opts(desc.get('p'), env, semslot, passed, argslot)
         before = snapshot(obj, passed)
         try:
             return canon(obj.parse(desc['text'], **p))
         finally:
             env.count('parses_state_monitored')
+            env.count('calls_argument_monitored:parse')
+            env.count('argument_objects_snapshotted', len(before['args']))
             _state_check(env, desc, before, snapshot(obj, passed))
     except RecursionError:
         return {'@exc': 'RecursionError'}
@@ -550,9 +757,16 @@ def evaluate(desc, env, reuse=None, phase='full', semslot=None):
         return canon_exc(e)
 
 
+def _state_event(env, desc, what, fields, ids=(), call='parse'):
+    env.state_events.append({'what': what, 'fields': fields, 'call': call, 'step': env.step,
+                             'kept': sorted(env.arg_keys[i] for i in ids if i in env.arg_keys),
+                             'desc': {k: v for k, v in desc.items() if k != '_reuse'}})
+
+
 def _state_check(env, desc, before, after):
-    for what, fields in state_diff(before, after):
-        env.state_events.append({'what': what, 'fields': fields, 'desc': {k: v for k, v in desc.items() if k != '_reuse'}})
+    call = 'tatsu.parse' if desc.get('via') == 'api' else 'parse'
+    for what, fields, *ids in state_diff(before, after):
+        _state_event(env, desc, what, fields, ids[0] if ids else (), call)
 
 
 # ----------------------------------------------------------------------------------------------
@@ -688,6 +902,86 @@ def _shapes():
         ('compile', {}, None, {'config': {'whitespace': '[ ]+', 'ignorecase': False}}, 'g0'),
         ('compile', {}, None, {'semantics': 'scale2'}, 'g0'),
     ]
+    # caller-owned mutable arguments (tag 'arg'): lists of constructors, lists of typedefs containers (dicts, modules),
+    # BuilderConfig / ParserConfig objects, a ModelBuilderSemantics built from the caller's lists, list settings.  The
+    # SAME values appear in several descriptors (alone, and together with other options) so that a history which keeps
+    # the object in a variable (argslot) passes the very same list / config to several calls
+    CT = {'constructors': ['Other']}
+    TD = ['Item', 'Num']
+    for via, p, tk in (('compile', {}, 'g0'), ('api', None, 'g0')):
+        S['typed'] += [
+            (via, dict(CT), None, p, tk, 'arg'),
+            (via, dict(CT, typedefs=TD), None, p, tk, 'arg'),
+            (via, {'typedefs': TD}, None, p, tk, 'arg'),
+            (via, {'builderconfig': dict(CT, typedefs=TD)}, None, p, tk, 'arg'),
+            (via, {'builderconfig': dict(CT)}, None, p, tk, 'arg'),
+        ]
+    S['typed'] += [
+        ('compile', dict(CT, typedefs=[['Name'], {'module': ['Top', 'Extra']}]), None, {}, 'g2', 'arg'),
+        ('compile', dict(CT, typedefs=['alt.Item']), None, {}, 'g0', 'arg'),
+        ('compile', {'typedefs': [{'module': ['Item', 'Num', 'Name']}]}, None, {}, 'g0', 'arg'),
+        ('compile', {'builderconfig': dict(CT), 'typedefs': TD}, None, {}, 'g0', 'arg'),
+        ('compile', {'builderconfig': {'typedefs': TD}, 'constructors': ['Other']}, None, {}, 'g0', 'arg'),
+        ('compile', {'constructors': ['Other', 'Top', 'Item', 'Num', 'Name']}, None, {}, 'g2', 'arg'),
+        ('compile', {'semantics': {'mbs': dict(CT, typedefs=TD)}}, None, {}, 'g0', 'arg'),
+        ('compile', {'semantics': {'mbs': {'typedefs': TD}}}, None, {}, 'g0', 'arg'),
+        ('compile', {'semantics': {'mbs': dict(CT)}}, None, {}, 'g0', 'arg'),
+        ('compile', {}, None, {'semantics': {'mbs': dict(CT, typedefs=TD)}}, 'g0', 'arg'),
+        ('gen', {}, {'semantics': {'mbs': {'typedefs': TD}}}, {}, 'g0', 'arg'),
+        ('api', {'semantics': {'mbs': dict(CT, typedefs=TD)}}, None, None, 'g2', 'arg'),
+    ]
+    S['typed2'] += [
+        ('compile', dict(CT), None, {}, 'g0', 'arg'),
+        ('compile', dict(CT, typedefs=TD), None, {}, 'g0', 'arg'),
+        ('api', {'builderconfig': dict(CT, typedefs=TD)}, None, None, 'g2', 'arg'),
+        ('api', {'builderconfig': dict(CT)}, None, None, 'g2', 'arg'),
+    ]
+    KW = ['foo']
+    S['kw'] += [
+        ('compile', {}, None, {'keywords': KW}, 'g1', 'arg'),
+        ('compile', {'keywords': KW}, None, {}, 'g1', 'arg'),
+        ('api', {'keywords': KW}, None, None, 'g1', 'arg'),
+        ('compile', {}, None, {'config': {'keywords': KW}}, 'g1', 'arg'),
+        ('compile', {}, None, {'keywords': KW, 'ignorecase': True}, 'g1', 'arg'),
+        ('gen', {}, {'keywords': KW}, {}, 'g1', 'arg'),
+        ('compile', {}, None, {'namechars': '-'}, 'foo-x bar', 'arg'),
+    ]
+    # constants and alerts (tag 'const'): the SAME model parses texts that bind who / n and texts that do not
+    S['const'] = [('compile', {}, None, {}, f'g{i}', 'const') for i in range(6)] + [
+        ('compile', {}, None, {}, 'b0', 'const'),
+        ('compile', {}, None, {}, 'b1', 'const'),
+        ('compile', {}, None, {'parseinfo': True}, 'g3', 'const'),
+        ('compile', {}, None, {'parseinfo': True}, 'g5', 'const'),
+        ('compile', {}, None, {'start': 'tag'}, 'tag 7', 'const'),
+        ('compile', {}, None, {'start': 'greet'}, 'hi bob', 'const'),
+        ('compile', {'semantics': 'upper'}, None, {}, 'g4', 'const'),
+        ('compile', {}, None, {'semantics': 'upper'}, 'g0', 'const'),
+        ('compile', {'name': 'Foo'}, None, {}, 'g1', 'const'),
+        ('api', {}, None, None, 'g0', 'const'),
+        ('api', {}, None, None, 'g1', 'const'),
+        ('api', {'parseinfo': True}, None, None, 'g3', 'const'),
+        ('gen', {}, {}, {}, 'g0', 'const'),
+        ('gen', {}, {}, {}, 'g1', 'const'),
+        ('gen', {}, {}, {}, 'g4', 'const'),
+        ('gen', {}, {}, {'parseinfo': True}, 'g3', 'const'),
+        ('compile', {}, None, None, 'info', 'const'),
+    ]
+    S['const2'] = [('compile', {}, None, {}, f'g{i}', 'const') for i in range(4)] + [
+        ('compile', {}, None, {}, 'b1', 'const'),
+        ('compile', {'asmodel': True}, None, {}, 'g0', 'const'),
+        ('compile', {'asmodel': True}, None, {}, 'g1', 'const'),
+        ('compile', {'asmodel': True}, None, {}, 'g2', 'const'),
+        ('compile', {'asmodel': True}, None, {'parseinfo': True}, 'g1', 'const'),
+        ('compile', {'asmodel': True}, None, {'parseinfo': True}, 'g3', 'const'),
+        ('compile', {}, None, {'parseinfo': True}, 'g0', 'const'),
+        ('api', {}, None, None, 'g0', 'const'),
+        ('api', {}, None, None, 'g1', 'const'),
+        ('api', {'asmodel': True, 'parseinfo': True}, None, None, 'g3', 'const'),
+        ('gen', {}, {}, {}, 'g0', 'const'),
+        ('gen', {}, {}, {}, 'g1', 'const'),
+        ('gen', {}, {}, {'parseinfo': True}, 'g2', 'const'),
+        ('genmodel', {}, None, {}, 'g1', 'const'),
+    ]
     # calls on ONE reusable object (a generated-parser instance / a compiled model) that pass nothing, or exactly one
     # thing: the bare call after any of the others must still be the bare call
     sem = {'typed': 'upper', 'typed2': 'upper', 'plain': 'scale2', 'kw': 'upper', 'lrec': 'scale2', 'ws': 'scale2'}
@@ -787,11 +1081,12 @@ def run_steps(steps):
     import tatsu
     env = Env()
     results = []
-    for st in steps:
+    for n, st in enumerate(steps):
+        env.step = n
         if st.get('drop'):
             env.drop()
         r = evaluate(st['desc'], env, reuse=st.get('reuse'), phase=st.get('phase', 'full'),
-                     semslot=st.get('semslot'))
+                     semslot=st.get('semslot'), argslot=st.get('argslot'))
         results.append(r)
     cache_sizes = {}
     try:  # evidence probes only: degrade to "unobserved"
@@ -806,6 +1101,7 @@ def run_steps(steps):
     except Exception:  # noqa: BLE001
         pass
     return {'results': results, 'state_events': env.state_events, 'counters': env.counters,
+            'kept_args': {str(k): v for k, v in env.step_keys.items()},
             'cache_sizes': cache_sizes, 'tatsu_file': tatsu.__file__}
 
 
